@@ -53,8 +53,15 @@ def settings_alphabet(levels, scope):
     return out
 
 
+# other legal spellings of a style attribute (CSS declaration list): empty declarations, blanks, a repeated property
+# (the last one wins), a priority, comments, a vendor property in front
+SPELLED = ("style-empty", "style-dup", "style-imp")
+_WRONG = {"fill": "lime", "fill-opacity": "0.9", "opacity": "0.9", "display": "inline", "fill-rule": "nonzero", "stroke": "none"}
+
+
 def attrs_for(level, settings):
     attr, style = {}, {}
+    spell = None
     for lv, prop, carrier, v in settings:
         if lv != level:
             continue
@@ -62,11 +69,20 @@ def attrs_for(level, settings):
             attr[prop] = v
         elif carrier == "style":
             style[prop] = v
+        elif carrier in SPELLED:
+            style[prop] = v
+            spell = carrier
         else:
             attr[prop] = BOTH[prop][0]
             style[prop] = v
     s = "".join(f' {k}="{v}"' for k, v in attr.items())
-    if style:
+    if style and spell == "style-empty":
+        s += ' style="; ' + " ;; ".join(f"{k} : {v}" for k, v in style.items()) + ' ; ;"'
+    elif style and spell == "style-dup":
+        s += ' style="' + ";".join(f"{k}:{_WRONG[k] if _WRONG[k] != v else 'none' if k in ('fill', 'display') else '0.1'};{k}:{v}" for k, v in style.items()) + '"'
+    elif style and spell == "style-imp":
+        s += ' style="-inkscape-stroke:none;/* note: x */' + ";".join(f"{k}:{v} !important /* {k} */" for k, v in style.items()) + '"'
+    elif style:
         s += ' style="' + ";".join(f"{k}:{v}" for k, v in style.items()) + '"'
     return s
 
@@ -168,8 +184,24 @@ def oor_cases(tier):
                     yield tpl, combo
 
 
+def spelled_cases(tier):
+    for tpl, levels in TEMPLATES.items():
+        if tier == "quick" and tpl in ("T3",):
+            continue
+        spelled = [(lv, prop, c, v) for lv in levels for prop, vals in PROPVALS.items() for v in vals for c in SPELLED]
+        partners = [(lv, prop, "attr", v) for lv in levels for prop, vals in PROPVALS.items() for v in vals if v not in ("inline", "nonzero", "1")]
+        for s1 in spelled:
+            yield tpl, (s1,)
+        if tpl == "T1" or tier == "thorough":
+            for s1 in spelled[:: 1 if tier == "thorough" else 2]:
+                for s2 in partners[:: 1 if tier == "thorough" else 3]:
+                    if valid_combo((s1, s2)) and not excluded((s1, s2)):
+                        yield tpl, (s1, s2)
+
+
 def all_cases(tier):
     yield from oor_cases(tier)
+    yield from spelled_cases(tier)
     for tpl, levels in TEMPLATES.items():
         alpha = settings_alphabet(levels, "full" if tpl == "T1" else "small")
         yield tpl, ()
@@ -207,7 +239,7 @@ def cases(tier, seed):
 def run(run):
     run.rule = (
         "E2 deviation-bounded + R3: templates T1 root>g1>g2>{A (self-overlapping path), B (overlapping circle)}, T2 root>g1>use>target group t{A,B}, T3 root>{g1{A,C},B}, T4 root>{use>A (the shape itself), B}; "
-        "setting = (level, property in {fill, fill-opacity, opacity, display, fill-rule, stroke}, carrier in {attribute, style, both with different values}, value incl. explicit defaults "
+        "setting = (level, property in {fill, fill-opacity, opacity, display, fill-rule, stroke}, carrier in {attribute, style, both with different values, style written with empty declarations and blanks, style repeating the property (last wins), style with !important + comments + a vendor property}, value incl. explicit defaults "
         "and zero opacities); opacity / fill-opacity values outside 0..1 (1.5, -0.5, 2, -1) singly and paired with a second opacity setting at any level (the clamp precedes the product); all documents with 0, 1, 2 settings (quick; reduced alphabets for pairs on T2/T3), 3 settings on T1 (thorough). Excluded by scope: visible stroke together with an "
         "opacity 0.5 setting. Oracle: canonical stacks and composites equal outside the band; vanished content absent (no display:none / fill:none / opacity 0 / empty path in the output). "
         "Non-trivial = document with >= 1 setting and >= 30 inside / >= 30 outside compared points."
